@@ -25,6 +25,7 @@ EXPLANATION = (
     "keeps no memo between the session store and the answer (= R13.5). Does not decide: relational composition of per-statement dataflows, "
     "wildcard expansion results."
     ' R04.7 (= R13.2) what a metadata look-up may be conditioned on.'
+    " R04.8 (= R05.3) extractors are not kept across statements; R04.9 (= R11.1) the columns a script registers for a table keep the script's order; R04.10 every route is reported: the returned paths are enumerated exhaustively (all_simple_paths), never by the shortest-path family."
 )
 RULE_TEXT = "one obligation per registration site, per statement of the repair loop, per model identity clause"
 
